@@ -81,6 +81,7 @@ func (ex *Exec) step(st *State, fr *Frame, in ssa.Instruction) (forks []*State, 
 		}
 		ex.store(st, r, w.Zero(et), et)
 		ex.initLocks(st, r, et, 0)
+		ex.zeroGhosts(st, r, et)
 		fr.regs[x] = r
 		// a named local is visible to loop invariants from its declaration on (its first
 		// DebugRef may only come later, inside the loop body)
@@ -863,6 +864,32 @@ func (ex *Exec) checkPost(st *State, fr *Frame, res []Term, pos token.Pos) {
 	st.trace = append(st.trace, fmt.Sprintf("%s: return", ex.w.posStr(pos)))
 	// ghost assignments performed at a normal return
 	for _, g := range ex.fc.GhostSets {
+		// G := expr or G() := expr for a ghost without arguments
+		zname := ""
+		if id, ok := g.Exprs[0].(*CIdent); ok {
+			zname = id.Name
+		} else if c0, ok := g.Exprs[0].(*CCall); ok && len(c0.Args) == 0 {
+			zname = c0.Fn
+		}
+		if zname != "" {
+			gd, ok := ex.w.CS.Ghosts[zname]
+			if !ok || len(gd.Params) != 0 {
+				ex.aborted = fmt.Sprintf("%s:%d: ghostset: unknown ghost %s", g.File, g.Line, zname)
+				return
+			}
+			genv := *env
+			genv.frame = fr
+			val, err := genv.Eval(g.Expr)
+			if err != nil {
+				if strings.Contains(err.Error(), "unknown identifier") {
+					continue
+				}
+				ex.aborted = fmt.Sprintf("%s:%d: ghostset: %v", g.File, g.Line, err)
+				return
+			}
+			ex.w.heapSet(st.heap, "G_"+zname, val.T)
+			continue
+		}
 		call, ok := g.Exprs[0].(*CCall)
 		if !ok || len(call.Args) != 1 {
 			ex.aborted = fmt.Sprintf("%s:%d: ghostset: left side must be G(x)", g.File, g.Line)
@@ -904,6 +931,33 @@ func (ex *Exec) checkPost(st *State, fr *Frame, res []Term, pos token.Pos) {
 	}
 	ex.checkFrame(st, pos)
 	ex.checkLockPost(st, pos)
+}
+
+// zeroGhosts gives the ghosts declared with `zeroghost G "T" e` their value for a freshly allocated zero T.
+func (ex *Exec) zeroGhosts(st *State, r Term, et types.Type) {
+	var key string
+	for _, name := range sortedKeys(ex.w.CS.Ghosts) {
+		gd := ex.w.CS.Ghosts[name]
+		if gd.Zero == nil {
+			continue
+		}
+		if key == "" {
+			key = typeKey(et)
+		}
+		e, ok := gd.Zero[key]
+		if !ok {
+			continue
+		}
+		env := &CEnv{ex: ex, st: st, vars: map[string]CV{}, old: st.heap, pkg: ex.fn.Pkg}
+		v, err := env.Eval(e)
+		if err != nil {
+			ex.aborted = "zeroghost " + name + ": " + err.Error()
+			return
+		}
+		as := ArraySort(gd.Params[0], gd.Result)
+		arr := ex.w.heapGet(st.heap, "G_"+name, as)
+		ex.w.heapSet(st.heap, "G_"+name, Store(arr, r, v.T))
+	}
 }
 
 func bindResults(env *CEnv, sig *types.Signature, names []string, res []Term) {
